@@ -287,6 +287,14 @@ func (e *Enc) Encode() {
 	for _, b := range e.order {
 		e.block(b)
 	}
+	// a lemma that could not be posed at any return is a mistake in the contract, not something to skip silently
+	if e.ct != nil {
+		for _, lm := range e.ct.Lemmas {
+			if !e.lemmaDone[lm.Tag] {
+				e.unsupp("lemma %s is never posed: %s", lm.Tag, e.lemmaSkipped[lm.Tag])
+			}
+		}
+	}
 }
 
 // refOld: reference-typed value v was allocated no later than heap h's allocation counter.
@@ -1766,16 +1774,45 @@ func (e *Enc) ret(x *ssa.Return) {
 				}
 			}
 		}
+		// address-taken locals (var x T; f(&x)): name -> current content
+		for _, b := range e.fn.Blocks {
+			for _, ins := range b.Instrs {
+				a, ok := ins.(*ssa.Alloc)
+				if !ok || a.Comment == "" || !b.Dominates(e.curBlock) {
+					continue
+				}
+				if _, dup := lenv.names[a.Comment]; dup {
+					continue
+				}
+				if av, known := e.vals[a]; known {
+					t := a.Type().(*types.Pointer).Elem()
+					switch under(t).(type) {
+					case *types.Struct, *types.Array:
+						lenv.names[a.Comment] = binding{av, a.Type()}
+					default:
+						lenv.names[a.Comment] = binding{Val{e.load(e.cur, av.T, a, t), e.sortOf(t)}, t}
+					}
+				}
+			}
+		}
 		for _, lm := range e.ct.Lemmas {
 			n := len(e.unsupported)
 			na := len(e.asserts)
 			t := e.evalBool(lm.Expr, &lenv)
 			if len(e.unsupported) > n {
 				// a local the lemma mentions is not defined on the paths to this return
+				if e.lemmaSkipped == nil {
+					e.lemmaSkipped = map[string]string{}
+				}
+				e.lemmaSkipped[lm.Tag] = e.unsupported[n]
 				e.unsupported = e.unsupported[:n]
 				e.rollback(na)
 				continue
 			}
+			if e.lemmaDone == nil {
+				e.lemmaDone = map[string]bool{}
+			}
+			e.lemmaDone[lm.Tag] = true
 			g := e.guardGoal(t)
 			e.oblige("lemma", lm.Tag, "", x.Pos(), g)
 			e.assert(g)
